@@ -189,6 +189,17 @@ theorem supported2_water_single_molecule : Supported2 mcfg_water_single_molecule
 example : Supported2 mcfg_dipoles_cell_bounded = false ∧ Supported2 mcfg_dipoles_cell_veto = false ∧
     Supported2 mcfg_water_coulomb_cell_veto_lj_inverted = false ∧ Supported2 mcfg_coulomb_atoms_cell_bounded = false := by decide
 
+/-- every shipped wiring that passes the side condition.  Besides the six above: two more configurations of composite objects
+without cells (`water/coulomb_power_bounded_lj_inverted.ini`, `hard_disk_dipoles/{hard_disk_dipoles, single_hard_disk_dipole}.ini`, judged
+by `harness/fpcorr2.py` like the others) — and the two cell-free coulomb_atoms wirings: `Supported2` is a condition on the WIRING only;
+those are one-level systems (point masses), this world is not a model of them (they live in the world of `JF/Props/Footprints.lean`;
+`harness/fpcorr2.py` judges only traces with `setting.number_of_node_levels == 2`). -/
+theorem shipped_in_world : (allModeCfgs.filter Supported2).map (·.w.name) =
+    ["coulomb_atoms_power_bounded", "coulomb_atoms_power_bounded_dump", "dipoles_atom_factors",
+     "dipoles_dipole_factors_inside_first", "dipoles_dipole_factors_outside_first", "dipoles_dipole_factors_ratio",
+     "dipoles_dipole_motion", "water_coulomb_power_bounded_lj_inverted", "water_single_molecule",
+     "hard_disk_dipoles_hard_disk_dipoles", "hard_disk_dipoles_single_hard_disk_dipole"] := by decide
+
 /-- the transition relation speaks about the kinds of the same event type as E13 (`C12.kindOf`) -/
 theorem evKind_eq_kindOf (e : Composite.Ev ℚ) : evKind e = kindOf e := by cases e <;> rfl
 
@@ -471,8 +482,9 @@ theorem commit_needs_mode_premise :
 
 /-! ### the Python mirror of the yields (`harness/fpcorr2.py`) is pinned to the Lean definitions
 
-`harness/fpcorr2.py: SELF_TEST` is this table; the module evaluates its mirror (`flags_of`, `independent`, `branches`, `yield_of`) on the
-flags of the eight states of the run and compares with the yields listed here, which are the values of `yieldCls` by `decide`. -/
+`harness/fpcorr2.py: SELF_TEST` holds the six distinct rows of this table (and the rows of `py_yield_table_water`); the module evaluates
+its mirror (`independent`, `branches`, `yield_of`, `instantiate`, `yield_factor`) on these flags and compares with the yields listed here,
+which are the values of `yieldCls` / `yieldF` by `decide` (`fp2.self-test`). -/
 
 def pyYieldTable : List (Flags × List (List IdTuple)) := [
   ([(false, [false, false]), (false, [false, false])], [[], [], [], [], [], [none], [], [], [some []], [none], [none]]),
